@@ -3,12 +3,14 @@ package ledger
 import (
 	"bytes"
 	"fmt"
+	"math/big"
 	"time"
 
 	"github.com/nspcc-dev/neo-go/pkg/consensus"
 	"github.com/nspcc-dev/neo-go/pkg/core/block"
 	"github.com/nspcc-dev/neo-go/pkg/core/mempool"
 	"github.com/nspcc-dev/neo-go/pkg/core/native/nativehashes"
+	"github.com/nspcc-dev/neo-go/pkg/core/native/nativeids"
 	"github.com/nspcc-dev/neo-go/pkg/core/transaction"
 	"github.com/nspcc-dev/neo-go/pkg/crypto/hash"
 	nio "github.com/nspcc-dev/neo-go/pkg/io"
@@ -33,11 +35,12 @@ const (
 	defNotValidBeforeFuture
 	defNoFunds
 	defNamedByOnChainConflicts
+	defBlockedCosigner
 	numDefects
 )
 
 var defectNames = [...]string{"valid", "expired", "valid-until-too-far", "already-on-chain", "bad-witness", "fee-one-short",
-	"highpriority-without-committee", "notvalidbefore-in-future", "sender-cannot-pay", "named-by-on-chain-conflicts"}
+	"highpriority-without-committee", "notvalidbefore-in-future", "sender-cannot-pay", "named-by-on-chain-conflicts", "cosigned-by-blocked-account"}
 
 // simpleTransfer builds an unsigned GAS transfer from account a.
 func (s *netSim) simpleTransfer(a neotest.SingleSigner, to util.Uint160, amount int64) *transaction.Transaction {
@@ -113,6 +116,10 @@ func (s *netSim) clientTx(t NetTx) {
 		s.conflictScenario(t)
 		return
 	}
+	if t.Defect%numDefects == defBlockedCosigner {
+		s.blockedCosigner(t)
+		return
+	}
 	// ---- a transaction invalid in exactly one respect
 	a := r.prod.kr.acct(t.Op.A)
 	tx := s.simpleTransfer(a, r.prod.kr.acctHash(t.Op.B), 1+t.Op.N)
@@ -186,6 +193,76 @@ func (s *netSim) clientTx(t NetTx) {
 	s.defective[tx.Hash()] = defectNames[d]
 	r.out.Faults["defective_tx/"+defectNames[d]]++
 	r.log.Addf("t=%dms client sends a transaction with defect %s", s.now()/time.Millisecond, defectNames[d])
+	s.sendToTargets(tx, t.Targets)
+}
+
+// isBlockedOn tells whether the Policy contract of node n has the account blocked (raw storage: prefix 15 + hash).
+func isBlockedOn(n *Node, h util.Uint160) bool {
+	return n.BC.GetStorageItem(nativeids.PolicyContract, append([]byte{15}, h.BytesBE()...)) != nil
+}
+
+// blockedCosigner: account 5 gets blocked by the committee (first use), later transactions co-signed by it - all
+// witnesses valid, the blocked account at a tape-chosen position among 2-3 signers, never the sender - must be refused
+// by every node that has the account blocked.
+func (s *netSim) blockedCosigner(t NetTx) {
+	r := s.r
+	bc := r.P.BC
+	x := r.prod.kr.acct(5)
+	if !isBlockedOn(r.P, x.ScriptHash()) {
+		var btx *transaction.Transaction
+		payer := -1
+		for i := 0; i < 4; i++ {
+			if bc.GetUtilityTokenBalance(r.prod.kr.acctHash(i), util.Uint160{}).Cmp(big.NewInt(1_0000_0000)) > 0 {
+				payer = i
+				break
+			}
+		}
+		retry := func() {
+			if t.Op.Y < 400 && s.now()+4*blockTimeMS*time.Millisecond < time.Duration(s.np.DurationMS)*time.Millisecond {
+				t2 := t
+				t2.Op.Y += 100 // (at most four retries)
+				s.at(s.now()+2500*time.Millisecond, func() { s.blockedCosigner(t2) })
+			}
+		}
+		if payer < 0 {
+			retry()
+			return
+		}
+		if v := sim.Recover(func() { btx, _ = r.prod.buildTx(Op{Kind: OpPolicy, A: payer, X: 3, B: 5, Y: 2}, nil) }); v != nil || btx == nil {
+			return
+		}
+		r.log.Addf("t=%dms the committee blocks account 5", s.now()/time.Millisecond)
+		r.out.Probes["net_block_account_sent"]++
+		s.sendToTargets(btx, 0xff)
+		// the co-signed transaction follows once the block with it has had time to be produced
+		retry()
+		return
+	}
+	a := r.prod.kr.acct(t.Op.A % 4)
+	signers := []neotest.SingleSigner{a, x}
+	if t.Op.X%2 == 1 {
+		signers = []neotest.SingleSigner{a, r.prod.kr.acct((t.Op.A%4 + 1) % 4), x}
+		if (t.Op.Y%100)%2 == 1 {
+			signers[1], signers[2] = signers[2], signers[1]
+		}
+	}
+	tx := s.simpleTransfer(a, r.prod.kr.acctHash(t.Op.B), 1+t.Op.N)
+	tx.Signers = nil
+	var sgs []neotest.Signer
+	for _, sg := range signers {
+		tx.Signers = append(tx.Signers, transaction.Signer{Account: sg.ScriptHash(), Scopes: transaction.CalledByEntry})
+		sgs = append(sgs, sg)
+	}
+	neotest.AddNetworkFee(r.P.tb, bc, tx, sgs...)
+	for _, sg := range signers {
+		if err := sg.SignTx(bc.GetConfig().Magic, tx); err != nil {
+			sim.Harnessf("sign: %v", err)
+		}
+	}
+	d := defectNames[defBlockedCosigner]
+	s.defective[tx.Hash()] = d
+	r.out.Faults["defective_tx/"+d]++
+	r.log.Addf("t=%dms client sends a transaction with defect %s (%d signers)", s.now()/time.Millisecond, d, len(signers))
 	s.sendToTargets(tx, t.Targets)
 }
 
